@@ -1291,12 +1291,12 @@ class ValueObject(Value):
 
     def __repr__(self):
         fn = self.resolveItem("_str_")
-        if fn:
+        if fn and fn.isFunc():
             args_ = Args(None)
             args_.addArgs(fn.getArgNames())
             args_.setArgs([None], [self])
             try:
-                return fn.execute(args_).value
+                return fn.execute(args_, None, None).asString().value
             except CklRuntimeError as e:
                 e.stacktrace.append("_str_")
                 raise
